@@ -40,6 +40,8 @@ def compare(models, results, truths):
                     cls = "clarabel-dual-infeasible-on-infeasible-primal"
                 if name in ("milp", "auto", "microlp_real") and verdict[0] == "Unbounded" and truth == "opt" and has_free:
                     cls = "microlp-unbounded-with-free-variable"
+                if name == "clarabel" and verdict[0] == "opt" and truth == "Unbounded" and abs(verdict[1]) >= 1e12:
+                    cls = "clarabel-solved-with-astronomic-values-on-unbounded-model"
                 yield {"kind": "wrong-verdict", "solver": name, "reported": verdict[0], "certified": truth, "certified_value": str(tval) if tval is not None else None,
                        "input": m["text"], "class": cls}
             elif truth == "opt" and m["dir"] != "sat":
